@@ -63,6 +63,16 @@ def _gen_for(b, fn):
         return B.g_join(b, fn)
     if k == "repeat":
         return B.g_repeat(b)
+    if k == "conv":
+        return B.g_conv(b)
+    if k == "pool":
+        return B.g_pool(b)
+    if k == "batchnorm":
+        return B.g_batchnorm(b)
+    if k == "gru":
+        return B.g_gru(b)
+    if k == "loss":
+        return B.g_loss(b, fn)
     if k in SHAPE_KINDS or fn in SHAPE_KINDS:
         return B.g_shape(b, fn=k if k in SHAPE_KINDS else fn)
     raise KeyError(fn)
@@ -72,7 +82,7 @@ def gen_single(rng, fn, force_empty=False):
     spec = OT.SPECS[fn]
     for _ in range(40):
         r = rng.random()
-        dtype = "float64" if r < 0.85 else ("float32" if r < 0.97 else "float16")
+        dtype = "float64" if r < 0.85 else ("float32" if (r < 0.97 or fn == "gru") else "float16")
         b = B.Builder(rng, dtype=dtype)
         b.npint_args = True
         b.allow_empty = force_empty or rng.random() < 0.04
@@ -140,10 +150,24 @@ def _gen_uout(b, rng, fn, shape, lo, hi, signed):
 
 
 def enumerate_cases(cfg, seed):
-    for fn in sorted(OT.SPECS):
-        for k in range(cfg["per_spec"]):
-            rng = random.Random(case_seed(seed, "C02:" + fn, k))
-            yield gen_single(rng, fn, force_empty=(k % 12 == 11))
+    """All (spec, k) pairs. The gru cases (numba JIT: seconds of compilation per process) are placed at indices that are
+    multiples of 16 so that, with the default 16 shards, a single shard pays for the compilation."""
+    def mk(fn, k):
+        rng = random.Random(case_seed(seed, "C02:" + fn, k))
+        return gen_single(rng, fn, force_empty=(k % 12 == 11))
+    others = [(fn, k) for fn in sorted(OT.SPECS) if fn != "gru" for k in range(cfg["per_spec"])]
+    grus = [("gru", k) for k in range(max(6, cfg["per_spec"] // 4))]
+    i = 0
+    while others or grus:
+        if i % 16 == 0 and grus:
+            yield mk(*grus.pop())
+        elif others:
+            yield mk(*others.pop())
+        elif i % 16 == 0:
+            yield mk(*grus.pop())
+        else:
+            yield None
+        i += 1
     for kid in KINKS:
         yield {"kind": "kink", "id": kid}
 
@@ -219,7 +243,8 @@ def gradinv(env, cnt, viol):
         if t.constant:
             viol.append({"monitor": "M-gradinv", "mech": "constant-has-grad", "msg": f"constant tensor {n} holds a gradient"})
         elif type(g) is not np.ndarray or g.shape != t.shape or g.dtype != t.dtype:
-            viol.append({"monitor": "M-gradinv", "mech": "grad-shape-dtype",
+            viol.append({"monitor": "M-gradinv", "mech": "grad-shape-dtype", "gshape": list(getattr(g, "shape", ())), "tshape": list(t.shape),
+                         "gdtype": str(getattr(g, "dtype", "")), "tdtype": str(t.dtype),
                          "msg": f"{n}.grad is {type(g).__name__} shape {getattr(g, 'shape', None)} dtype {getattr(g, 'dtype', None)}; tensor is {t.shape} {t.dtype}"})
 
 
@@ -287,8 +312,24 @@ def features(case):
     return sorted(f)
 
 
+def classify_layers(v, case):
+    """Mechanism keys of the two recorded nnet findings (shared with C12/C14/C16)."""
+    m = v.get("mech") or v["monitor"]
+    prog = case.get("prog", [])
+    has = lambda fn: any(st.get("fn") == fn for st in prog)
+    if m == "grad-shape-dtype" and has("gru") and v.get("gdtype") == v.get("tdtype") and len(v.get("tshape", [])) == 3 \
+            and v.get("gshape") == [v["tshape"][0] - 1] + v["tshape"][1:]:
+        return "gru-hidden-grad-shape"
+    if m.startswith("raises:conv_nd:ValueError") and "dilated window" in v.get("msg", ""):
+        return "conv-dilation-overreject"
+    return None
+
+
 def classify(v, case):
     m = v.get("mech") or v["monitor"]
+    lay = classify_layers(v, case)
+    if lay:
+        return lay
     feats = v.get("feats") or []
     if m == "raises:repeat:TypeError" and "npint" in feats:
         return "repeat-npint"
